@@ -96,6 +96,19 @@ class C05(Check):
         x, y = blk(19), blk(19)
         for bl in ([x, x], [x, y, x], [x, twin(x)], [twin(x), y, x], [y, y, y]):
             add("adv-dup", True, one, [bl], bound=self.bound - 1)
+        # two headers of the same block hash that differ in the coinbase transaction (the hash does not
+        # cover it): one request after the other on a long-lived manager (sequence cases), and as
+        # block and brother of one request
+        def cbtwin(b):
+            other = blk(b["nf"])
+            f = R.decode(bytes.fromhex(b["raw"]), strict=False)
+            f[-1] = R.decode(bytes.fromhex(other["raw"]), strict=False)[-1]
+            return dict(b, raw=R.encode(f).hex(), cb=other["cb"])
+        t0 = blk(19)
+        t1 = cbtwin(t0)
+        add("adv-cbtwin", True, [t0], [[]], bound=1)
+        add("adv-cbtwin", True, [t1], [[]], bound=1)
+        add("adv-cbtwin", True, [t0], [[t1]], bound=1)
         b0, b1, b2 = blk(19), blk(20), blk(19)
         add("adv-repeat", True, [b0, b1, b0], [[x], [], [y]], bound=self.bound - 1)
         add("adv-repeat", True, [b0, b0], [[x, y], []], bound=self.bound - 1)
@@ -178,6 +191,7 @@ class C05(Check):
         vs = []
         cfgs = [c for c in self.configs if c["kind"] in ("adv-struct", "upd-struct", "adv-cb", "adv-field",
                                                          "upd-field")][::3]
+        cfgs += [c for c in self.configs if c["kind"] == "adv-cbtwin"]
         if case["order"] == 1:
             cfgs = cfgs[::-1]
         elif case["order"] == 2:
